@@ -169,13 +169,14 @@ def level_name(lv):
 def write_adf15(d):
     """d: {'symbol': 'C', 'charge': 1, 'style': 'hydrogen' | 'hydrogen-like' | 'full', 'unit': ' A' | 'A',
            'filmem': 'pju#c1', 'levels': [level dicts] (1-based in the file; styles other than 'hydrogen'),
-           'blocks': [{'isel', 'type', 'wl': tenths of Angstrom (int), 'upper', 'lower', 'dens': [tokens], 'temp': [tokens],
+           'blocks': [{'isel', 'type', 'wl_text': wavelength in Angstrom as printed ('4647.418') or 'wl': tenths of Angstrom (int), 'upper', 'lower', 'dens': [tokens], 'temp': [tokens],
                        'table': [nd][nt] tokens, 'data': bool (False: listed in the index but no data block)}],
            'index_order': permutation of block positions for the comment index, 'trailer': [...]}"""
     out = ["%5d    /%-2s+%2d PHOTON EMISSIVITY COEFFICIENTS/" % (len(d["blocks"]), d["symbol"], d["charge"])]
 
     def wl(b, width):
-        return ("%d.%d" % (b["wl"] // 10, b["wl"] % 10)).rjust(width)
+        # 'wl_text': the Angstrom value exactly as printed (any number of decimals the field holds); legacy: 'wl' in tenths of A
+        return (b["wl_text"] if "wl_text" in b else "%d.%d" % (b["wl"] // 10, b["wl"] % 10)).rjust(width)
 
     for b in d["blocks"]:
         if not b.get("data", True):
